@@ -63,7 +63,8 @@ KeyValues ==
       ps \in {<<>>, << <<Neg2I(1), Nat2I(6)>>, <<Neg2I(2), B12>> >>, << <<Ta, Nil>>, <<Nat2I(0), B0>>, <<Nat2I(6), F15>> >>}}
 KeySetValues == {<<>>, <<CHOOSE k \in KeyValues : k.kid = <<>> /\ k.params = <<>> /\ k.alg = <<>> /\ k.ops = <<>> /\ k.biv = <<>> /\ k.kty.k = "text">>}
                 \cup {<<k1, k2>> : k1 \in {k \in KeyValues : k.params = <<>> /\ k.alg = <<>> /\ k.biv = <<>> /\ k.kid = <<1>>}, k2 \in {k \in KeyValues : k.ops = <<>> /\ k.alg # <<>> /\ k.kid = <<>> /\ k.biv = <<>>}}
-Times == {<<>>, <<Whole(Nat2I(1))>>, <<Whole(N63)>>, <<Frac(<<63,248,0,0,0,0,0,0>>)>>}
+(* floats WITHOUT a fractional part (0.0, 1700000000.0): an encoder that "prefers the integer form" changes the wire kind (round 6) *)
+Times == {<<>>, <<Whole(Nat2I(1))>>, <<Whole(N63)>>, <<Frac(<<63,248,0,0,0,0,0,0>>)>>, <<Frac(<<0,0,0,0,0,0,0,0>>)>>, <<Frac(<<65,217,84,252,64,0,0,0>>)>>}
 ClaimValues ==
   {[iss |-> i, sub |-> s, aud |-> a, exp |-> e, nbf |-> n, iat |-> t, cti |-> c, rest |-> r] :
       i \in {<<>>, <<<<97>>>>}, s \in {<<>>, <<<<>>>>}, a \in {<<>>, <<<<98, 99>>>>}, e \in Times, n \in {<<>>, <<Whole(Nat2I(1))>>}, t \in {<<>>, <<Frac(<<63,241,153,153,153,153,153,154>>)>>},
@@ -79,7 +80,11 @@ LabelValues == {Nat2I(0), Nat2I(24), Neg2I(1), I63max, N63, Ta, Te}
 RegValues == {<<"RegisteredLabelWithPrivate", "Algorithm", l>> : l \in {Assigned("Algorithm", "RS1"), Assigned("Algorithm", "IV_GENERATION"), Priv(Neg2I(65537)), TextL(<<97>>)}}
              \cup {<<"RegisteredLabel", "CoapContentFormat", l>> : l \in {Assigned("CoapContentFormat", "VndOmaLwm2mCbor"), Assigned("CoapContentFormat", "TextPlainUtf8"), TextL(<<>>)}}
              \cup {<<"RegisteredLabel", "KeyType", l>> : l \in {Assigned("KeyType", "Reserved"), Assigned("KeyType", "WalnutDSA")}}
-TimeValues == {Whole(Nat2I(0)), Whole(I63max), Whole(N63), Frac(<<63,248,0,0,0,0,0,0>>), Frac(<<65,215,132,107,64,32,0,0>>)}
+TimeValues == {Whole(Nat2I(0)), Whole(I63max), Whole(N63), Frac(<<63,248,0,0,0,0,0,0>>), Frac(<<65,215,132,107,64,32,0,0>>),
+               (* integral-valued floats: 0.0, -0.0, 1.0, -1.0, 1700000000.0, 2^53, 2^63, and the non-finite ones *)
+               Frac(<<0,0,0,0,0,0,0,0>>), Frac(<<128,0,0,0,0,0,0,0>>), Frac(<<63,240,0,0,0,0,0,0>>), Frac(<<191,240,0,0,0,0,0,0>>),
+               Frac(<<65,217,84,252,64,0,0,0>>), Frac(<<67,64,0,0,0,0,0,0>>), Frac(<<67,224,0,0,0,0,0,0>>),
+               Frac(<<127,240,0,0,0,0,0,0>>), Frac(<<127,248,0,0,0,0,0,0>>)}
 
 Classes == {"Header", "ProtectedHeader", "CoseSign1", "CoseMac0", "CoseEncrypt0", "CoseSignature", "CoseSign", "CoseMac", "CoseEncrypt", "CoseRecipient",
             "CoseKey", "CoseKeySet", "ClaimsSet", "PartyInfo", "SuppPubInfo", "CoseKdfContext", "Label", "Reg", "Timestamp"}
